@@ -335,11 +335,31 @@ def op_msm(d, o):
         ins = [mk(n, f) for f in d['ins']]
         r, p = mk(n, r0), mk(n, p0)
         try:
-            sep.mix_and_split_with_moisture_content(as_rep(ins, d.get('rep')), r, p, np.array(d['split'], float), mc, ID, strict)
+            if d.get('kwargs'):      # the public keywords of the wrapper
+                sep.mix_and_split_with_moisture_content(as_rep(ins, d.get('rep')), r, p, np.array(d['split'], float),
+                                                        moisture_content=mc, ID=ID, strict=strict)
+            else:
+                sep.mix_and_split_with_moisture_content(as_rep(ins, d.get('rep')), r, p, np.array(d['split'], float), mc, ID, strict)
+        except tmo.exceptions.InfeasibleRegion:
+            return None
+        return arr(r), arr(p)
+    def two_steps():
+        """what the wrapper is documented to be: mix_and_split, then adjust_moisture_content with the same ID / strict"""
+        ins = [mk(n, f) for f in d['ins']]
+        r, p = mk(n, None), mk(n, None)
+        sep.mix_and_split(ins, r, p, np.array(d['split'], float))
+        try:
+            sep.adjust_moisture_content(r, p, mc, ID=ID, strict=strict)
         except tmo.exceptions.InfeasibleRegion:
             return None
         return arr(r), arr(p)
     res = call(d.get('top0'), d.get('bot0'))
+    ref = two_steps()
+    if (res is None) != (ref is None) or (res is not None and not (vec_near(res[0], ref[0]) and vec_near(res[1], ref[1]))):
+        o.fail('mix_split_moisture:differs-from-two-steps',
+               f'mix_and_split_with_moisture_content(ID={ID!r}, strict={strict}) gives {res}; mix_and_split followed by '
+               f'adjust_moisture_content(ID={ID!r}, strict={strict}) gives {ref}')
+    if k != 0: o.tags.append('msm:non-water-ID')
     line = (f'msm n={n} ins={VS(d["ins"])} split={V(d["split"])} MW={V(MW)} k={k} mode={mode} mwc={frac(MW_WATER_LITERAL)} '
             f'mc={frac(mc)} strict={"none" if strict is None else int(strict)}')
     total = [sum(x) for x in zip(*d['ins'])]
@@ -1183,9 +1203,12 @@ def gen_op(rng):
         n = max(n, 2)
         mode = 'mol' if rng.random() < 0.5 else 'mass'
         ins = [flows(rng, n, 0.3) for _ in range(rng.randrange(1, 4) if rng.random() > 0.1 else rng.randrange(4, 9))]
-        ins[0][0] += 64.0 * rng.randrange(0, 40)          # wash water
-        split = [rng.randrange(0, 9) / 64] + [rng.randrange(32, 65) / 64 for _ in range(n - 1)]
-        return 'msm ' + json.dumps(dict(n=n, ins=ins, split=split, k=0, mode=mode, mc=rng.randrange(1, 61) / 64, rep=rng.choice(STREAM_REPS),
+        # the moisture chemical: water (ID None or 'Water') or, through the public ID keyword, any other chemical
+        k = rng.randrange(1, n) if (mode == 'mass' and rng.random() < 0.6) else 0
+        ins[0][k] += 64.0 * rng.randrange(0, 40)          # wash liquid
+        split = [rng.randrange(32, 65) / 64 for _ in range(n)]
+        split[k] = rng.randrange(0, 9) / 64
+        return 'msm ' + json.dumps(dict(n=n, ins=ins, split=split, k=k, mode=mode, kwargs=int(rng.random() < 0.5), mc=rng.randrange(1, 61) / 64, rep=rng.choice(STREAM_REPS),
                                         strict=rng.choice([None, True, False]), top0=stale(rng, n), bot0=stale(rng, n)))
     if r < 0.64:                                      # adjust_moisture_content
         mode = 'mol' if rng.random() < 0.5 else 'mass'
